@@ -37,6 +37,16 @@ structure GenOps where
   gridToeplitzFactors : List (Σ n : Nat, Fin n → Rat) → List (Sq Rat)
   gridForward : Bool → List (Sq Rat) → Sq Rat
   addedLoss : {n : Nat} → (Fin n → Rat) → (Fin n → Rat) → (Fin n → Rat) → Rat
+  /-- `get_fantasy_strategy` (WISKI): (caches handed to the new strategy, caches of `self` after the call) -/
+  wiskiFantasyStep : {g nf : Nat} → Prim Rat → DMat g g Rat → DMat g 1 Rat → DMat nf g Rat → (Fin nf → Rat) → DMat nf 1 Rat →
+    DMat nf 1 Rat → (DMat g g Rat × DMat g 1 Rat) × (DMat g g Rat × DMat g 1 Rat)
+  /-- `_compute_grid`: input entry read as coordinate `c` of flattened point `p` (flag, n, d, p, c) -/
+  computeGridSource : Bool → Nat → Nat → Nat → Nat → Nat × Nat
+  computeGridPointDim : Bool → Nat → Nat → Nat
+  computeGridResultShape : Bool → Nat → Nat → List Nat × Nat
+  /-- `GridKernel.forward(last_dim_is_batch=True)`: first rows, dense factors, use_toeplitz -/
+  gridForwardLastDimBatch : List (Σ n : Nat, Fin n → Rat) → List (Sq Rat) → Bool → List (Sq Rat)
+  inducingDeepcopyArgs : List (String × CopyMode)
 
 /-- the hand-written model in the same shape (what the `gen_*_eq_model` theorems of `Props/C09.lean` equate the
 generated definitions with) -/
@@ -61,6 +71,13 @@ def modelOps : GenOps where
   gridToeplitzFactors := fun rows => rows.map fun c => ⟨c.1, toeplitz c.2⟩
   gridForward := fun mode Ks => if mode then gridKronRowMajor Ks else gridKron Ks
   addedLoss := fun kdiag qdiag noise => titsiasAddedLoss kdiag qdiag noise
+  wiskiFantasyStep := fun _ P0 resp0 Wf noisef yf muf =>
+    (wiskiUpdate P0 resp0 Wf (fun i => (noisef i)⁻¹) (yf.sub muf), (P0, resp0))
+  computeGridSource := fun flag n _ p c => Structured.computeGridSource flag n p c
+  computeGridPointDim := fun flag _ d => if flag then 1 else d
+  computeGridResultShape := fun flag n d => if flag then ([d], n) else ([], n)
+  gridForwardLastDimBatch := fun rows covars tz => if tz then rows.map (fun c => ⟨c.1, toeplitz c.2⟩) else covars
+  inducingDeepcopyArgs := [("base_kernel", .memo), ("inducing_points", .memo), ("likelihood", .memo), ("active_dims", .shared)]
 
 abbrev RawMat := Nat × Nat × Array (Array Rat)
 
@@ -301,6 +318,108 @@ def opKiss (G : GenOps) (ms : Array RawMat) : Option String := do
       pure (joinOut (base ++ [sh Pn, sh resp, sh fmc, sh fmean, sh dm, sh dc, sh gmean]))
   | _, _, _ => pure (joinOut (base ++ [sh gmean]))
 
+/-- one request of a fantasy history with the shipped fantasy noise and its float square roots (oracle of `Prim.sqrt`) -/
+structure HistReq (g : Nat) where
+  q : FantasyReq g Rat
+  nzf : DMat q.nf 1 Rat
+  sf : DMat q.nf 1 Rat
+
+/-- the generated transition threaded through a history: `(caches of the object after, caches handed out per request)` -/
+def genHistory (G : GenOps) {g : Nat} (st : DMat g g Rat × DMat g 1 Rat) : List (HistReq g) →
+    (DMat g g Rat × DMat g 1 Rat) × List (DMat g g Rat × DMat g 1 Rat)
+  | [] => (st, [])
+  | h :: rest =>
+    let tbl : List (Rat × Rat) := (List.finRange h.q.nf).map fun i => (h.nzf.get i.1 0, h.sf.get i.1 0)
+    let P : Prim Rat := { primOf #[] #[] 0 with sqrt := fun x => (tbl.lookup x).getD 0 }
+    let o := G.wiskiFantasyStep P st.1 st.2 h.q.Wf (fun i => h.nzf.get i.1 0) h.q.rf DMat.zero
+    let r := genHistory G o.2 rest
+    (r.1, o.1 :: r.2)
+
+/-- kissh W Ws Kuu noise r  (Wf_k noisef_k rf_k sqrt(noisef_k))*   — a HISTORY of `get_fantasy_model` requests, all issued against
+the same base object.  replies: Kxx | Ksx | Kss | mean | cov | cond | generated mean (as `kiss`) | per request: dense-conditional mean | covariance (on base ++ fantasy_k data) |
+response cache handed to strategy k (model history) | the same through the GENERATED transition threaded through the
+history | ‖generated inner product − model‖∞ | exact WISKI mean (small grids, else zeros) |
+finally: response cache of the BASE object after the history (model) | generated | ‖generated base inner product − model‖∞ -/
+def opKissHist (G : GenOps) (ms : Array RawMat) : Option String := do
+  let W ← ms[0]?; let Ws ← ms[1]?; let Kuu ← ms[2]?; let Nz ← ms[3]?; let Rr ← ms[4]?
+  let n := W.1; let g := W.2.1; let ns := Ws.1
+  let w ← asMat W n g; let ws ← asMat Ws ns g; let kuu ← asMat Kuu g g; let nz ← asMat Nz n 1; let r ← asMat Rr n 1
+  let Kxx := interpKernel w kuu w
+  let Ksx := interpKernel ws kuu w
+  let Kss := interpKernel ws kuu ws
+  let Sigma : DMat n n Rat := DMat.diagonal (colFn nz)
+  let Ainv ← DMat.inv? (Kxx.add Sigma)
+  let mean := interpApply ws (interpMeanCache kuu w Ainv r)
+  let cov := condCovar Kss Ksx Ainv
+  let gmean := G.interpPredictiveMean kuu w ws (G.interpMeanCache (primOf #[] #[] 0) kuu w (Kxx.add Sigma) r DMat.zero) DMat.zero
+  let dinv : Fin n → Rat := fun i => (colFn nz i)⁻¹
+  let base : WiskiState g Rat := wiskiBase w dinv r
+  if (ms.size - 5) % 4 ≠ 0 then none else
+  let k := (ms.size - 5) / 4
+  let reqs : List (HistReq g) ← (List.range k).mapM fun j => do
+    let Wf ← ms[5 + 4 * j]?; let Nf ← ms[6 + 4 * j]?; let Rf ← ms[7 + 4 * j]?; let Sf ← ms[8 + 4 * j]?
+    let nf := Wf.1
+    let wf ← asMat Wf nf g; let nzf ← asMat Nf nf 1; let rf ← asMat Rf nf 1; let sf ← asMat Sf nf 1
+    pure (⟨⟨nf, wf, fun i => (colFn nzf i)⁻¹, rf⟩, nzf, sf⟩ : HistReq g)
+  -- the model's history: every request against the same object
+  let hist := wiskiFantasyHistory wiskiFantasyStep base (reqs.map (·.q))
+  -- the generated transition threaded through the same history
+  let gres := genHistory G (base.innerProd, base.response) reqs
+  let per ← (List.range k).mapM fun j => do
+    let h : HistReq g ← reqs[j]?
+    let mst : WiskiState g Rat ← hist.2[j]?
+    let gst : DMat g g Rat × DMat g 1 Rat ← gres.2[j]?
+    let wall := vstack w h.q.Wf
+    let Kall := interpKernel wall kuu wall
+    let Ksall := interpKernel ws kuu wall
+    let SigAll : DMat (n + h.q.nf) (n + h.q.nf) Rat := DMat.diagonal (Fin.addCases (colFn nz) (colFn h.nzf))
+    let (dm, dc) ← conditional? Kall SigAll Ksall Kss (vstack r h.q.rf)
+    let fmean ← (if g ≤ 14 then do
+        let Tinv ← DMat.inv? (wiskiT kuu mst.innerProd)
+        pure (interpApply ws (wiskiMeanCacheExact kuu Tinv mst.response))
+      else pure DMat.zero : Option (DMat ns 1 Rat))
+    pure [sh dm, sh dc, sh mst.response, sh gst.2, showRat (normInf (gst.1.sub mst.innerProd)), sh fmean]
+  pure (joinOut ([sh Kxx, sh Ksx, sh Kss, sh mean, sh cov, showRat (normInf (Kxx.add Sigma) * normInf Ainv), sh gmean] ++ per.flatten ++
+    [sh hist.1.response, sh gres.1.2, showRat (normInf (gres.1.1.sub hist.1.innerProd))]))
+
+def modeCode : CopyMode → Rat
+  | .memo => 0 | .fresh => 1 | .shared => 2 | .other => 3
+
+/-- gentab n d  — the small generated tables next to the model's:
+`_compute_grid` source map for both flags (rows `[flag p c row col]`, generated | model), point dimension and result shape
+(generated | model), and the copy modes of `InducingPointKernel.__deepcopy__` for (base_kernel, inducing_points, likelihood)
+(generated | model; 0 = deepcopy with memo, 1 = deepcopy without memo, 2 = shared reference, 3 = other) -/
+def opGenTab (G : GenOps) (ms : Array RawMat) : Option String := do
+  let N ← ms[0]?; let D ← ms[1]?
+  let n := natOf ((N.2.2[0]?.bind (·[0]?)).getD 0); let d := natOf ((D.2.2[0]?.bind (·[0]?)).getD 0)
+  let rowsOf (f : Bool → Nat → Nat → Nat → Nat → Nat × Nat) : List (List Rat) :=
+    ([true, false].map fun flag =>
+      let np := if flag then d * n else n
+      let nc := if flag then 1 else d
+      (List.range np).map fun p => (List.range nc).map fun c =>
+        let s := f flag n d p c
+        [(if flag then 1 else 0 : Rat), (p : Rat), (c : Rat), (s.1 : Rat), (s.2 : Rat)]).flatten.flatten
+  let shapeOf (O : GenOps) : List (List Rat) := [true, false].map fun flag =>
+    let r := O.computeGridResultShape flag n d
+    [(O.computeGridPointDim flag n d : Rat), (r.2 : Rat), (r.1.length : Rat), ((r.1.headD 0 : Nat) : Rat)]
+  let modes (O : GenOps) : List (List Rat) :=
+    [["base_kernel", "inducing_points", "likelihood"].map fun a => ((O.inducingDeepcopyArgs.lookup a).map modeCode).getD 3]
+  pure (joinOut [showRows (rowsOf G.computeGridSource), showRows (rowsOf modelOps.computeGridSource),
+    showRows (shapeOf G), showRows (shapeOf modelOps), showRows (modes G), showRows (modes modelOps)])
+
+/-- gridB tz K_0 … K_{d-1}  — `GridKernel.forward(last_dim_is_batch=True)`: the per-dimension factors (dense matrices shipped;
+their first rows are the Toeplitz columns).  replies: d generated factors, then d model factors (`toeplitz` of the first row
+under use_toeplitz, the dense matrix otherwise) -/
+def opGridBatch (G : GenOps) (ms : Array RawMat) : Option String := do
+  let T ← ms[0]?
+  let tz := boolOf T
+  let Ks ← (ms.toList.drop 1).mapM sqOf
+  let rows : List (Σ n : Nat, Fin n → Rat) := Ks.map fun K =>
+    ⟨K.1, fun l => if h : 0 < K.1 then K.2.toMatrix ⟨0, h⟩ l else 0⟩
+  let gen := G.gridForwardLastDimBatch rows Ks tz
+  let mdl : List (Sq Rat) := if tz then rows.map (fun c => ⟨c.1, toeplitz c.2⟩) else Ks
+  pure (joinOut ((gen.map fun K => sh K.2) ++ (mdl.map fun K => sh K.2)))
+
 def step (G : GenOps) (line : String) : String :=
   match tokens line with
   | op :: rest =>
@@ -320,6 +439,9 @@ def step (G : GenOps) (line : String) : String :=
         | "rff" => opRff G ms
         | "interp" => opInterp ms
         | "kiss" => opKiss G ms
+        | "kissh" => opKissHist G ms
+        | "gentab" => opGenTab G ms
+        | "gridB" => opGridBatch G ms
         | _ => none
       res.getD "fail"
   | [] => "empty"
